@@ -29,7 +29,7 @@ Inductive val :=
 | VMap (isnil : bool) (kk : kd) (tstr : str) (entries : list (val * val))
 | VStruct (si : sinfo) (fields : list (finfo * val))
 | VIface (inner : option val)                  (* a value of interface kind (field / element) *)
-| VTime                                        (* a time.Time struct value *)
+| VTime (iszero : bool)                        (* a time.Time struct value; iszero = Value.IsZero() *)
 | VOther (tstr : str).                         (* func, chan, ... *)
 
 Definition kind (v : val) : kd :=
@@ -37,7 +37,7 @@ Definition kind (v : val) : kd :=
   | VInvalid => KInvalid | VBool _ => KBool | VInt _ _ => KInt | VUint _ _ => KUint
   | VFloat _ _ _ _ => KFloat | VStr _ => KString | VNilPtr _ => KPtr | VPtr _ => KPtr
   | VSlice _ ek _ _ => KSlice ek | VArray ek _ _ => KArray ek | VMap _ _ _ _ => KMap
-  | VStruct _ _ => KStruct | VIface _ => KIface | VTime => KStruct | VOther _ => KOther
+  | VStruct _ _ => KStruct | VIface _ => KIface | VTime _ => KStruct | VOther _ => KOther
   end.
 
 Definition is_num_kind (k : kd) (can_float : bool) : bool :=
@@ -62,7 +62,7 @@ Fixpoint type_string (v : val) : str :=
   | VMap _ _ t _ => t
   | VStruct si _ => s_tstr si
   | VIface _ => s2b "interface {}"
-  | VTime => s2b "time.Time"
+  | VTime _ => s2b "time.Time"
   | VOther t => t
   end.
 
@@ -112,7 +112,7 @@ Fixpoint is_zero_fuel (fuel : nat) (v : val) : res bool :=
     | VMap isnil _ _ _ => Ok isnil
     | VStruct _ fs => all (map snd fs)
     | VIface inner => Ok (match inner with None => true | Some _ => false end)
-    | VTime => Ok false     (* the harness only builds non-zero times *)
+    | VTime z => Ok z
     | VOther _ => Ok false  (* the harness only builds non-nil funcs / chans *)
     end
   end.
